@@ -30,8 +30,14 @@ THEOREMS = [
     "C04.earlier_effects_durable",
     "C04.model_satisfies_check",
     "C04.single_txn_autocommit_block_commits",
+    "C04.configure_perMig_own",
+    "C04.configure_tddl_own_counterexample",
+    "C04.configure_tddl_own_partial",
 ]
 PARTIAL = {
+    "C04.configure_tddl_own_partial": "full statement C04.configure_tddl_own_statement (every configure() call of an env.py run gets its own "
+                                      "transactional_ddl) is false on the unchanged tree (C04.configure_tddl_own_counterexample, finding C04-F1): "
+                                      "proved only for calls that pass the argument",
     "C04.single_txn": "scope hypothesis: no autocommit_block is entered before the failure. autocommit_block commits the enclosing "
                       "transaction by design (documented warning), witnessed by C04.single_txn_autocommit_block_commits; the row-level "
                       "claims (rows_at_boundary, never_names_failed, nontransactional) are proved WITH autocommit blocks",
@@ -56,7 +62,7 @@ RULE = (
     "config in {pysqlite,recipe} x transactional_ddl{default,True} x transaction_per_migration x external-transaction{no,yes}, and EVERY "
     "failure position (k, pos) of the plan (before/between/after each statement, around autocommit blocks, inside and after the version "
     "update), each position with an Exception AND with a BaseException that is not an Exception (KeyboardInterrupt / SystemExit / custom "
-    "BaseException, round robin; all four kinds for the fixed scripts), on the in-process path and on the command.upgrade/downgrade "
+    "BaseException, round robin; all four kinds for the fixed scripts without external transaction), on the in-process path and on the command.upgrade/downgrade "
     "path with the shipped env.py; plus the run without failure. Fixed batteries on every run: (1) the settings given through env.py "
     "(shipped generic env.py whose online context.configure call additionally receives transactional_ddl / transaction_per_migration / "
     "on_version_apply: all 8 setting combinations, incl. the after-the-version-update position on the command path); (2) failures raised "
@@ -265,7 +271,7 @@ def script_cases(ctx, script, configs, runner="inprocess", cfg_obj=None, scratch
                     continue  # "after the version update" needs an on_version_apply hook: in-process / patched env.py only
                 # every position: an Exception and (round robin, deterministic) one BaseException that is not an
                 # Exception; all four kinds when the script asks for it (fixed scripts, exhaustive domain)
-                kinds = ["exception"] + (nonexc if script.get("all_kinds") else [nonexc[(k + pos + cfg_no) % 3]])
+                kinds = ["exception"] + (nonexc if script.get("all_kinds") and not config.get("external") else [nonexc[(k + pos + cfg_no) % 3]])
                 for kind in kinds:
                     res, orc, fin = execute(config, (k, pos, kind))
                     ctx.evaluation()
@@ -277,11 +283,12 @@ def judge(ctx, pending):
     ops = []
     for inp, impl, meta in pending:
         ops.append({"op": "online.run", **inp})
+        sinp = dict(inp, **meta["spec_cfg"]) if "spec_cfg" in meta else inp  # twodb: judged against the call's OWN settings
         if impl["eff"] is not None:
-            ops.append({"op": "online.spec", **inp, "fail": {"k": impl["eff"][0], "pos": impl["eff"][1], "kind": (inp.get("fail") or {}).get("kind", "exception")},
+            ops.append({"op": "online.spec", **sinp, "fail": {"k": impl["eff"][0], "pos": impl["eff"][1], "kind": (inp.get("fail") or {}).get("kind", "exception")},
                         "final": {k: impl["final"][k] for k in ("objs", "rows", "vt")}})
         else:
-            ops.append({"op": "online.spec", **inp, "fail": None, "final": {k: impl["final"][k] for k in ("objs", "rows", "vt")}})
+            ops.append({"op": "online.spec", **sinp, "fail": None, "final": {k: impl["final"][k] for k in ("objs", "rows", "vt")}})
     ans = ctx.drv.ask(ops)
     for i, (inp, impl, meta) in enumerate(pending):
         m, s = ans[2 * i], ans[2 * i + 1]
@@ -520,10 +527,138 @@ def multidb_battery(ctx, pending):
                     ctx.hist("steps", len(case[0]["plan"]))
 
 
+# ------------------------------------------------------------------------------------------ several configure() calls
+# One env.py run that calls context.configure() once per database with DIFFERENT settings per call (hand-written env.py,
+# harness/online_impl.py:TWODB_ENV).  EnvironmentContext.context_opts is shared by the calls: what one call passes must not
+# change what a later call gets.  Every database is judged against ITS OWN settings; the flags the real contexts ended up
+# with are compared with Model.Online.configureCall.
+
+SETTINGS = [(None, False), (None, True), (True, False), (True, True)]
+TWODB_SCRIPT = {
+    "hist": [{"id": "a", "down": []}, {"id": "b", "down": ["a"]}], "shape": "linear", "cmd": "upgrade", "start": [], "target": "heads",
+    "bodies": {"a": _b([["ddl", "add", 0], ["dml", "add", 1]], [["dml", "del", 1], ["ddl", "del", 0]]),
+               "b": _b([["dml", "add", 3], ["ddl", "add", 2]], [["ddl", "del", 2], ["dml", "del", 3]])},
+}
+
+
+def settings_kw(st):
+    kw = {}
+    if st[0] is not None:
+        kw["transactional_ddl"] = st[0]
+    if st[1]:
+        kw["transaction_per_migration"] = True
+    return kw
+
+
+def twodb_execute(scratch, cfg, script, rev_index, bases, engine_mode, calls, fail):
+    works = [os.path.join(scratch, "work_db%d.sqlite" % (i + 1)) for i in range(2)]
+    for i, (b, w) in enumerate(zip(bases, works)):
+        shutil.copyfile(b, w)
+        cfg.set_main_option("db%d.url" % (i + 1), "sqlite:///" + w)
+    cfg.attributes["verif_databases"] = [("db%d" % (i + 1), settings_kw(st)) for i, st in enumerate(calls)]
+    res, orc = oi.run_command(cfg, script["bodies"], rev_index, script["cmd"], script["target"], engine_mode, fail)
+    return res, orc, [oi.observe(w, rev_index) for w in works]
+
+
+def twodb_cases(ctx, script, engine_mode, calls, scratch, cfg, bases, all_positions, kinds_for):
+    hist = script["hist"]
+    rev_index = {r["id"]: i for i, r in enumerate(hist)}
+    parents = parents_of(hist, rev_index)
+    db0 = [oi.observe(b, rev_index) for b in bases]
+    names = ["db1", "db2"]
+    res, ref, fins = twodb_execute(scratch, cfg, script, rev_index, bases, engine_mode, calls, None)
+    ctx.evaluation()
+    config = {"engine": engine_mode, "calls": [list(c) for c in calls], "template": "twodb"}
+    if res != "ok" or ref.unparsed:
+        ctx.disagree("online.reference", {"script": script, "runner": "twodb", "config": config}, {"res": res, "unparsed": ref.unparsed},
+                     {"raised": False}, note="two-database run without injected failure raised")
+        return
+    gsteps = [[g for g, st in enumerate(ref.steps) if st["engine"] == nm] for nm in names]
+    plans = [build_plan([ref.steps[g] for g in gs], script["bodies"], rev_index) for gs in gsteps]
+    # the flags the real contexts got, against the model of configure()
+    seen = [ref.steps[gs[0]]["seen"] if gs else None for gs in gsteps]
+    eff = ctx.drv.ask1({"op": "online.configure", "dialectDefault": False, "calls": [list(c) for c in calls]}).get("effective")
+    for i in range(2):
+        if seen[i] is not None and seen[i] != eff[i]:
+            ctx.disagree("online.configure", {"runner": "twodb", "config": config, "db": i}, {"flags_of_real_context": seen[i]},
+                         {"flags": eff[i]}, note="settings reaching the MigrationContext of a later configure() call")
+    own = [[bool(c[0]) if c[0] is not None else False, bool(c[1])] for c in calls]
+
+    def base_inp(i, flags):
+        return {"mode": ENGINE_MODE[engine_mode], "tddl": flags[0], "perMig": flags[1], "external": False,
+                "pre": [{"k": "ddl", "a": ["cvt"]}] if not db0[i]["vt"] else [], "plan": plans[i],
+                "db": {k: db0[i][k] for k in ("objs", "rows", "vt")}, "upgrade": script["cmd"] == "upgrade", "parents": parents}
+
+    def meta(i, gfail, flags):
+        return {"runner": "twodb", "config": config, "script": script,
+                "multi": {"db": i, "fail": gfail, "own": own[i], "seen": flags},
+                "spec_cfg": {"tddl": own[i][0], "perMig": own[i][1]}}
+
+    for i in range(2):
+        if seen[i] is not None:
+            yield dict(base_inp(i, seen[i]), fail=None), {"res": "ok", "final": fins[i], "eff": None}, meta(i, None, seen[i])
+    for e in range(2):
+        for k, g in enumerate(gsteps[e]):
+            mig = plans[e][k]
+            for pos in range(0, n_atoms(mig) + 1):
+                if not all_positions and not (e == 1 and k >= 1) and pos != 1:
+                    continue  # quick: every position of the later migrations on the later database, a sample elsewhere
+                for kind in kinds_for(g, pos):
+                    res, orc, fins = twodb_execute(scratch, cfg, script, rev_index, bases, engine_mode, calls, (g, pos, kind))
+                    ctx.evaluation()
+                    if res == "ok":
+                        ctx.disagree("online.run", {"script": script, "runner": "twodb", "config": config, "fail": [g, pos, kind]}, {"res": res}, {"raised": True})
+                        continue
+                    flags_e = orc.steps[gsteps[e][0]]["seen"] if len(orc.steps) > gsteps[e][0] else seen[e]
+                    for i in range(2):
+                        if i == e:
+                            yield (dict(base_inp(i, flags_e), fail={"k": k, "pos": pos, "kind": kind}),
+                                   {"res": res, "final": fins[i], "eff": [orc.step - gsteps[e][0], orc.pos]}, meta(i, [g, pos, kind], flags_e))
+                        elif i < e:
+                            # migrated completely and committed by its own context before the other database failed
+                            yield dict(base_inp(i, seen[i]), fail=None), {"res": "ok", "final": fins[i], "eff": None}, meta(i, [g, pos, kind], seen[i])
+                        else:
+                            same = {x: fins[i][x] for x in ("objs", "rows", "vt")} == {x: db0[i][x] for x in ("objs", "rows", "vt")}
+                            ctx.hist("twodb_untouched_database", "unchanged" if same else "CHANGED")
+                            if not same:
+                                ctx.fail({"script": script, "runner": "twodb", "config": config, "multi": {"db": i, "fail": [g, pos, kind]}},
+                                         "out-of-step: two databases: a database on which no migration ran was changed by the failed run",
+                                         impl={"final": fins[i], "before": db0[i]}, tags=["untouched"])
+
+
+def twodb_battery(ctx, pending, thorough):
+    nonexc = ["keyboardInterrupt", "systemExit", "baseException"]
+    scripts = [TWODB_SCRIPT] + ([dict(TWODB_SCRIPT, cmd="downgrade", start=["heads"], target="base")] if thorough else [])
+    for script in scripts:
+        rev_index = {r["id"]: i for i, r in enumerate(script["hist"])}
+        with oi.Scratch() as scratch:
+            bases = [prepare_base(scratch, script, rev_index, "base_db%d.sqlite" % (i + 1)) for i in range(2)]
+            if None in bases:
+                ctx.hist("setup", "failed")
+                continue
+            cfg = oi.make_twodb_dir(scratch, script["hist"])
+            n = 0
+            for engine_mode in ("recipe", "pysqlite"):
+                for c1 in SETTINGS:
+                    for c2 in SETTINGS:
+                        n += 1
+                        if thorough:
+                            kinds_for = lambda g, pos: ["exception"] + nonexc
+                        else:
+                            kinds_for = lambda g, pos, n=n: ["exception"] if (g + pos + n) % 3 else ["exception", nonexc[(g + pos + n) % 9 // 3]]
+                        for case in twodb_cases(ctx, script, engine_mode, (c1, c2), scratch, cfg, bases, thorough, kinds_for):
+                            pending.append(case)
+                            ctx.hist("steps", len(case[0]["plan"]))
+                            ctx.hist("configure() pairs (own settings db1 -> db2)", "%s -> %s" % (c1, c2))
+
+
 class _Stub:
     """what run_script needs from a Ctx, collected in a worker process and merged by the parent"""
 
     def __init__(self, thorough):
+        from ..core import Driver
+
+        self.drv = Driver(DRIVER)
         self.thorough = thorough
         self.evaluations = 0
         self.hists = []
@@ -552,6 +687,8 @@ def _work(job):
     pending = []
     if runner == "multidb":
         multidb_battery(stub, pending)
+    elif runner == "twodb":
+        twodb_battery(stub, pending, thorough)
     else:
         run_script(stub, script, configs, pending, runner, flush=False)
     return pending, stub.evaluations, stub.hists, stub.disagreements, stub.failures
@@ -622,7 +759,7 @@ def exhaustive_scripts(max_len=2):
 
 def run(ctx, n_scripts=None, rng_name="main"):
     rng = ctx.rng(rng_name)
-    n = n_scripts if n_scripts is not None else (1000 if ctx.thorough else 10)
+    n = n_scripts if n_scripts is not None else (1000 if ctx.thorough else 8)
     pending = []
     fixed = fixed_scripts()
     jobs = []
@@ -655,6 +792,7 @@ def run(ctx, n_scripts=None, rng_name="main"):
         if i % 4 == 0:
             jobs.append((script, cmd_cfgs + [env_cfgs[(i // 4) % len(env_cfgs)]], "command"))
     jobs.append(("multidb", None, "multidb"))
+    jobs.append(("twodb", None, "twodb"))
     if ctx.thorough and rng_name == "main":
         n_ex = 0
         for script in exhaustive_scripts(2):
@@ -700,10 +838,35 @@ def search(ctx):
 
 
 def check_witness(ctx, finding):
+    """replays the witness of a known finding on the real code; returns what fails (None = no longer reproduces)"""
+    if finding["id"] != "C04-F1":
+        return None
+    w = finding["witness"]
+    script = TWODB_SCRIPT
+    rev_index = {r["id"]: i for i, r in enumerate(script["hist"])}
+    calls = [tuple(c) for c in w["calls"]]
+    with oi.Scratch() as scratch:
+        bases = [prepare_base(scratch, script, rev_index, "base_db%d.sqlite" % (i + 1)) for i in range(2)]
+        cfg = oi.make_twodb_dir(scratch, script["hist"])
+        res, orc, fins = twodb_execute(scratch, cfg, script, rev_index, bases, w["engine"], calls, tuple(w["fail"]))
+    seen = orc.steps[-1].get("seen") if orc.steps else None
+    if res != "ok" and seen == [True, False] and fins[1]["rows"] == [] and 0 in fins[1]["objs"]:
+        return ("db2 was configured without transactional_ddl but its context has transactional_ddl=True (inherited from db1's "
+                "configure() call): after the failure revision a's table exists and alembic_version is empty")
     return None
 
 
 def classify(failure):
+    """C04-F1 only: the later database, its own call did not pass transactional_ddl, the earlier call passed True, the real
+    context shows exactly that leak (and no other flag differs from the call's own settings), and only the clauses that
+    depend on transactional_ddl being false are violated."""
+    i = failure.get("input") or {}
+    if i.get("runner") != "twodb" or "multi" not in i:
+        return None
+    m, calls = i["multi"], i["config"]["calls"]
+    if (m.get("db") == 1 and calls[1][0] is None and calls[0][0] is True and m.get("own") == [False, bool(calls[1][1])]
+            and m.get("seen") == [True, bool(calls[1][1])] and failure.get("tags") and set(failure["tags"]) <= {"nonTxnOk", "perMigOk"}):
+        return "C04-F1"
     return None
 
 
@@ -712,6 +875,23 @@ def replay(ctx, case):
     script, config = rec["script"], rec["config"]
     rev_index = {r["id"]: i for i, r in enumerate(script["hist"])}
     out = {}
+    if rec.get("runner") == "twodb":
+        multi = rec["multi"]
+        with oi.Scratch() as scratch:
+            bases = [prepare_base(scratch, script, rev_index, "base_db%d.sqlite" % (i + 1)) for i in range(2)]
+            cfg = oi.make_twodb_dir(scratch, script["hist"])
+            f = tuple(multi["fail"]) if multi.get("fail") else None
+            res, orc, fins = twodb_execute(scratch, cfg, script, rev_index, bases, config["engine"], [tuple(c) for c in config["calls"]], f)
+        fin = fins[multi["db"]]
+        out["impl"] = {"res": res, "final_db1": fins[0], "final_db2": fins[1], "failed_at_global_step": [orc.step, orc.pos],
+                       "flags_of_real_contexts_per_step": [st.get("seen") for st in orc.steps], "database_judged": multi["db"],
+                       "own_settings": multi.get("own")}
+        if "input" in rec:
+            inp = rec["input"]
+            out["model"] = ctx.drv.ask1({"op": "online.run", **inp})
+            out["spec_against_own_settings"] = ctx.drv.ask1({"op": "online.spec", **dict(inp, tddl=multi["own"][0], perMig=multi["own"][1]),
+                                                            "final": {k: fin[k] for k in ("objs", "rows", "vt")}})
+        return out
     if rec.get("runner") == "multidb":
         multi = rec["multi"]
         with oi.Scratch() as scratch:
